@@ -43,7 +43,11 @@ def stretched_gates(gates, *, suffix=None, update=False):
 
         if gate.ideal_unitary:
             # Drop the last argument, which is the stretch factor
-            ideal_unitary = lambda *args: gate.ideal_unitary(args[:-1])
+            # Bind this gate's unitary now (the loop variable changes) and
+            # pass every argument but the trailing stretch factor on.
+            ideal_unitary = lambda *args, _parent=gate.ideal_unitary: _parent(
+                *args[:-1]
+            )
         else:
             ideal_unitary = None
 
